@@ -10,6 +10,7 @@ import SedpackDriver.Path
 import SedpackDriver.Version
 import SedpackDriver.ParMap
 import SedpackDriver.Codec
+import SedpackDriver.Writer
 open Lean
 namespace Sedpack.Drv
 
@@ -31,6 +32,7 @@ def dispatch (m : String) (j : Json) : Except String Json :=
   | "defaults" => defaultsJ j
   | "pmap" => pmapJ j
   | "codec" => codecJ j
+  | "writer" => writerJ j
   | _ => .error s!"unknown model {m}"
 
 end Sedpack.Drv
